@@ -288,8 +288,12 @@ class ArrV:
             raise ev.err("index rank does not match the array", n, mod)
         grid_items = items[len(self.shape):] if self.batch_last else items[: self.batch]
         const_items = items[: len(self.shape)] if self.batch_last else items[self.batch:]
+        self._grid_index = None
         for i in grid_items:
             if not (isinstance(i, SliceV) and i.lo is None and i.hi is None and i.step is None):
+                if self.batch == 1 and isinstance(i, SliceV):
+                    self._grid_index = i          # a slice along the single grid axis: applied to every cell's grid vector
+                    continue
                 raise ev.err("non-trivial index on a grid axis", n, mod)
         sets, scalar = [], []
         for size, i in zip(self.shape, const_items):
@@ -710,7 +714,18 @@ class Ev:
         return DictV(d)
 
     def e_Set(self, n, env, mod):
-        return Tup([self.eval(e, env, mod) for e in n.elts], "set")
+        items, seen = [], set()
+        for e in n.elts:
+            vals = self.iterate(self.eval(e.value, env, mod), e, mod) if isinstance(e, ast.Starred) else [self.eval(e, env, mod)]
+            for v in vals:
+                try:
+                    h = hkey(v)
+                except AnalysisError:
+                    h = ("id", id(v))
+                if h not in seen:
+                    seen.add(h)
+                    items.append(v)
+        return Tup(items, "set")
 
     def e_UnaryOp(self, n, env, mod):
         v = self.eval(n.operand, env, mod)
@@ -779,6 +794,10 @@ class Ev:
             return a + b
         if isinstance(a, Tup) and isinstance(b, Tup) and isinstance(op, ast.Add):
             return Tup(a.items + b.items, a.kind)
+        if isinstance(a, Tup) and isinstance(b, Tup) and isinstance(op, (ast.Sub, ast.BitAnd, ast.BitOr, ast.BitXor)) \
+                and (a.kind == "set" or getattr(a, "keys_view", False)) and (b.kind == "set" or getattr(b, "keys_view", False)):
+            name = {ast.Sub: "difference", ast.BitAnd: "intersection", ast.BitOr: "union", ast.BitXor: "symmetric_difference"}[type(op)]
+            return lib_set_method(name)(self, [Tup(list(a.items), "set"), b], {}, n, mod)
         if isinstance(a, Tup) and isinstance(op, ast.Mult) and is_sym(b) and b.is_Integer:
             return Tup(a.items * int(b), a.kind)
         if isinstance(a, ArrV) or isinstance(b, ArrV):
@@ -839,6 +858,17 @@ class Ev:
         return out
 
     def arr_matmul(self, a, b, n, mod):
+        if isinstance(a, ArrV) and isinstance(b, ArrV) and len(a.shape) == 1 and len(b.shape) == 2 and a.shape[0] == b.shape[0]:
+            # (..., k) @ (k, m): the trailing axis of a batch of vectors against a matrix
+            out = ArrV(max(a.batch, b.batch), (b.shape[1],))
+            for j in range(b.shape[1]):
+                out.cells[(j,)] = sum((as_sym(a.get((k,))) * as_sym(b.get((k, j))) for k in range(a.shape[0])), sp.Integer(0))
+            return out
+        if isinstance(a, ArrV) and isinstance(b, ArrV) and len(a.shape) == 2 and len(b.shape) == 1 and a.shape[1] == b.shape[0] and not b.batch:
+            out = ArrV(a.batch, (a.shape[0],))
+            for i in range(a.shape[0]):
+                out.cells[(i,)] = sum((as_sym(a.get((i, k))) * as_sym(b.get((k,))) for k in range(a.shape[1])), sp.Integer(0))
+            return out
         if not (isinstance(a, ArrV) and isinstance(b, ArrV) and len(a.shape) == 2 and len(b.shape) == 2 and a.shape[1] == b.shape[0]):
             raise self.err("matrix product of operands that are not conforming constant-size matrices", n, mod)
         out = ArrV(max(a.batch, b.batch), (a.shape[0], b.shape[1]))
@@ -1115,14 +1145,16 @@ class Ev:
                 out.cells = {(tpos,): base.get(key) for tpos, key in enumerate(paired)}
                 return out
             sets, scalar = base.index_sets(items, self, n, mod)
-            if all(scalar):
+            if all(scalar) and getattr(base, "_grid_index", None) is None:
                 return base.get([x[0] for x in sets])
+            gi = getattr(base, "_grid_index", None)
+            cut = (lambda v: v) if gi is None else (lambda v: self.subscript(as_sym(v), Tup([gi], "tuple"), n, mod) if as_sym(v) != 0 else v)
             out_shape = [len(x) for x, sc in zip(sets, scalar) if not sc]
-            out = ArrV(base.batch, out_shape, base.fill, batch_last=base.batch_last)
+            out = ArrV(base.batch, out_shape, cut(base.fill), batch_last=base.batch_last)
             for combo in itertools.product(*[range(len(x)) for x in sets]):
                 src_key = tuple(x[c] for x, c in zip(sets, combo))
                 dst_key = tuple(c for c, sc in zip(combo, scalar) if not sc)
-                out.cells[dst_key] = base.get(src_key)
+                out.cells[dst_key] = cut(base.get(src_key))
             return out
         if isinstance(base, LibV) and base.name == "scipy.constants.physical_constants":
             if idx not in U.PHYSICAL_CONSTANTS:
@@ -1532,6 +1564,12 @@ class Ev:
         if isinstance(base, DictV):
             base.d[idx] = v
             return
+        if isinstance(base, Tup) and base.kind == "list" and is_sym(idx) and idx.is_Integer:
+            i_ = int(idx)
+            if not -len(base.items) <= i_ < len(base.items):
+                raise RaisedV("IndexError", f"{mod.rel}:{getattr(t, 'lineno', 0)}" if mod else "")
+            base.items[i_] = v
+            return
         if isinstance(base, Obj):
             hook = self.seeds.get((base.cls, "__setitem__"))
             if hook:
@@ -1917,7 +1955,7 @@ class MatProd(sp.Function):
 STR_METHODS = {"lower", "upper", "strip", "split", "startswith", "endswith", "join", "format", "rjust", "replace",
                "lstrip", "rstrip", "isdigit"}
 
-BUILTINS = {"frozenset", "len", "range", "tuple", "list", "sorted", "zip", "map", "int", "float", "str", "sum", "abs", "min",
+BUILTINS = {"id", "frozenset", "len", "range", "tuple", "list", "sorted", "zip", "map", "int", "float", "str", "sum", "abs", "min",
             "max", "round", "set", "dict", "enumerate", "isinstance", "next", "reversed", "any", "all", "open",
             "print", "type", "callable", "getattr", "repr", "hash", "bool", "slice"}
 
@@ -2261,7 +2299,9 @@ def lib_dict_items(ev, a, k, n, mod):
 
 
 def lib_dict_keys(ev, a, k, n, mod):
-    return Tup(list(a[0].d.keys()), "list")
+    t = Tup(list(a[0].d.keys()), "list")
+    t.keys_view = True          # a dict view: supports the set operators
+    return t
 
 
 def lib_dict_values(ev, a, k, n, mod):
@@ -2770,6 +2810,14 @@ def lib_np_pad(ev, a, k, n, mod):
     mode = k.get("mode", a[2] if len(a) > 2 else "constant")
     if set(k) - {"pad_width", "mode"} or mode != "edge":
         raise ev.err("numpy.pad: only mode='edge' is modelled", n, mod)
+    if isinstance(width, Tup) and width.items and all(isinstance(w, Tup) for w in width.items):
+        # per-axis widths: modelled when only the (single) grid axis of a (grid, k) array is padded by (1, 1)
+        per = [[_const_int(v) for v in w.items] for w in width.items]
+        if isinstance(x, ArrV) and x.batch == 1 and not x.batch_last and len(per) == 1 + len(x.shape) and per[0] == [1, 1] and all(p_ == [0, 0] for p_ in per[1:]):
+            out = ArrV(x.batch, x.shape, edge_padded(as_sym(x.fill)) if as_sym(x.fill) != 0 else x.fill)
+            out.cells = {kk: edge_padded(as_sym(c)) for kk, c in x.cells.items()}
+            return out
+        raise ev.err("numpy.pad: these per-axis widths are not modelled", n, mod)
     if isinstance(width, Tup):
         ws = [_const_int(w) for w in width.items]
         if len(ws) != 2:
@@ -3139,6 +3187,9 @@ def lib_round(ev, a, k, n, mod):
 
 lib_round.kw = {"ndigits"}
 LIB.setdefault("round", lib_round)
+# id(x): the identity of an object - distinct objects, distinct atoms (used as a cache key: the value cached under it is then
+# looked up by object identity, which C14's process-wide-cache rule judges)
+LIB.setdefault("id", lambda ev, a, k, n, mod: sp.Symbol(f"ID_{id(a[0])}", positive=True, integer=True))
 for _nm in ("j_to_ev", "ev_to_j", "gpa_to_megabar", "megabar_to_gpa", "b3_to_a3", "a3_to_b3", "ry_to_ev", "ev_to_ry", "ry_to_j", "j_to_ry",
             "gpa_to_ev_a3", "ev_a3_to_gpa", "gpa_to_ry_b3", "ry_b3_to_gpa", "gpa_to_ev_b3", "ev_b3_to_gpa"):
     LIB.setdefault(f"qha.unit_conversion.{_nm}", lib_qha_convert(_nm))
@@ -3491,6 +3542,34 @@ def lib_arange(ev, a, k, n, mod):
 
 lib_arange.kw = {"dtype"}
 LIB.update({"numpy.arange": lib_arange})
+def lib_trace(ev, a, k, n, mod):
+    x = a[0]
+    if not isinstance(x, ArrV):
+        raise ev.err("numpy.trace of a value that is not a small array", n, mod)
+    nd = x.batch + len(x.shape)
+    a1 = _const_int(k.get("axis1", a[2] if len(a) > 2 else sp.Integer(0))) % nd
+    a2 = _const_int(k.get("axis2", a[3] if len(a) > 3 else sp.Integer(1))) % nd
+    off = _const_int(k.get("offset", a[1] if len(a) > 1 else sp.Integer(0)))
+    if x.batch_last or min(a1, a2) < x.batch or off != 0:
+        raise ev.err("numpy.trace over a grid axis / with an offset", n, mod)
+    c1, c2 = a1 - x.batch, a2 - x.batch
+    if x.shape[c1] != x.shape[c2]:
+        raise RaisedV("ValueError")
+    rest = [d for i, d in enumerate(x.shape) if i not in (c1, c2)]
+    out = ArrV(x.batch, rest)
+    for key in itertools.product(*[range(d) for d in rest]):
+        tot = sp.Integer(0)
+        for j in range(x.shape[c1]):
+            full = list(key)
+            for pos, val in sorted([(c1, j), (c2, j)]):
+                full.insert(pos, val)
+            tot += as_sym(x.get(tuple(full)))
+        out.cells[tuple(key)] = tot
+    return out if rest else out.get(())
+
+
+lib_trace.kw = {"axis1", "axis2", "offset"}
+LIB.update({"numpy.trace": lib_trace})
 LIB.update({"numpy.transpose": lib_transpose, "ndarray.transpose": lib_transpose, "numpy.stack": lib_stack("stack"), "numpy.column_stack": lib_stack("column_stack"),
             "numpy.vstack": lib_stack("vstack"), "numpy.hstack": lib_stack("hstack"), "numpy.repeat": lib_repeat})
 LIB.update({"numpy.clip": lib_clip, "ndarray.clip": lib_clip, "numpy.maximum": lib_minmax2("MAXIMUM"), "numpy.minimum": lib_minmax2("MINIMUM"),
